@@ -134,4 +134,561 @@ theorem descend_events (p4 : Word) : ∀ (path r : List Nat) (tbl : Word) (s : S
         · exact ⟨tbl, i, h, htbl⟩
         · simpa using hall ev h
 
+/-! ### "Zeroed before use" -/
+
+/-- Whenever the allocator hands out a frame `f`, the very next events are the write of the parent
+entry that links it and then the complete zeroing of `f` (`wr f 0 0 … wr f 511 0`) — so no entry
+of `f` is read, and nothing but zero is written to it, before all 512 entries are zero. -/
+def ZeroedAfterAlloc (seg : List Ev) : Prop :=
+  ∀ pre f post, seg = pre ++ .alloc (some f) :: post →
+    ∃ t i v rest, post = .wr t i v :: (zeroEvs f ++ rest)
+
+theorem ZeroedAfterAlloc.of_noAlloc {seg : List Ev} (h : ∀ f, Ev.alloc (some f) ∉ seg) : ZeroedAfterAlloc seg := by
+  intro pre f post hs
+  exact absurd (by rw [hs]; simp) (h f)
+
+theorem ZeroedAfterAlloc.append {a b : List Ev} (ha : ZeroedAfterAlloc a) (hb : ZeroedAfterAlloc b) :
+    ZeroedAfterAlloc (a ++ b) := by
+  intro pre f post hs
+  rcases List.append_eq_append_iff.1 hs with ⟨a', h1, h2⟩ | ⟨c', h1, h2⟩
+  · exact hb a' f post h2
+  · cases c' with
+    | nil => simp at h2; exact hb [] f post (by simpa using h2.symm)
+    | cons x c'' =>
+      simp only [List.cons_append, List.cons.injEq] at h2
+      obtain ⟨hx, hpost⟩ := h2
+      subst hx
+      obtain ⟨t, i, v, rest, hc⟩ := ha pre f c'' h1
+      refine ⟨t, i, v, rest ++ b, ?_⟩
+      rw [hpost, hc]; simp
+
+/-- The log segment of a successful allocation in `create_next_table`. -/
+theorem ZeroedAfterAlloc.fresh (tbl : Word) (i : Nat) (f v : Word) :
+    ZeroedAfterAlloc ([.rd tbl i, .alloc (some f), .wr tbl i v] ++ zeroEvs f) := by
+  intro pre g post hs
+  cases pre with
+  | nil => simp at hs
+  | cons x pre =>
+    simp only [List.cons_append, List.cons.injEq] at hs
+    obtain ⟨_, hs⟩ := hs
+    cases pre with
+    | nil =>
+      simp only [List.nil_append, List.cons.injEq, Ev.alloc.injEq, Option.some.injEq] at hs
+      obtain ⟨hg, hpost⟩ := hs
+      subst hg
+      exact ⟨tbl, i, v, [], by rw [← hpost]; simp⟩
+    | cons y pre =>
+      simp only [List.cons_append, List.cons.injEq] at hs
+      obtain ⟨_, hs⟩ := hs
+      simp only [List.nil_append] at hs
+      have hmem : Ev.alloc (some g) ∈ Ev.wr tbl i v :: zeroEvs f := by rw [hs]; simp
+      rcases List.mem_cons.1 hmem with h | h
+      · cases h
+      · obtain ⟨j, _, hj⟩ := mem_zeroEvs h; cases hj
+
+/-! ### The descent of `map_to`: what the log of `create_next_table` / `createPath` guarantees -/
+
+/-- Guarantees about the log segment `seg` that took state `s` to `s'` (at most `n` allocator
+requests). Composable (`CreateLog.trans`). -/
+structure CreateLog (p4 : Word) (s s' : St) (seg : List Ev) (n : Nat) : Prop where
+  events : s'.events = s.events ++ seg
+  /-- every read and write touches a table of the hierarchy as it was in `s`, or a frame handed out
+  by the allocator in this segment -/
+  touch : ∀ ev ∈ seg, ∀ f, ev.frame? = some f → IsTable s.mem p4 f ∨ f ∈ allocatedIn seg
+  /-- memory differs only in such frames -/
+  memdiff : ∀ f i, s'.mem f i ≠ s.mem f i → IsTable s.mem p4 f ∨ f ∈ allocatedIn seg
+  /-- the tables afterwards are the tables before plus allocated frames -/
+  tree : ∀ q g, q.length ≤ 3 → IdxOK q → tblAt s'.mem p4 q = some g →
+    tblAt s.mem p4 q = some g ∨ g ∈ allocatedIn seg
+  nodealloc : ∀ ev ∈ seg, ev.isDealloc = false
+  count : allocCount seg ≤ n
+  zeroed : ZeroedAfterAlloc seg
+
+theorem CreateLog.refl (p4 : Word) (s : St) : CreateLog p4 s s [] 0 :=
+  { events := by simp
+    touch := by intro ev h; cases h
+    memdiff := by intro f i h; exact absurd rfl h
+    tree := by intro q g _ _ h; exact Or.inl h
+    nodealloc := by intro ev h; cases h
+    count := by simp
+    zeroed := ZeroedAfterAlloc.of_noAlloc (by intro f h; cases h) }
+
+theorem CreateLog.trans {p4 : Word} {s s1 s2 : St} {a b : List Ev} {n m : Nat}
+    (h1 : CreateLog p4 s s1 a n) (h2 : CreateLog p4 s1 s2 b m) : CreateLog p4 s s2 (a ++ b) (n + m) := by
+  have lift : ∀ f, IsTable s1.mem p4 f → IsTable s.mem p4 f ∨ f ∈ allocatedIn (a ++ b) := by
+    intro f ⟨q, hq, hqi, hf⟩
+    rcases h1.tree q f hq hqi hf with h | h
+    · exact Or.inl ⟨q, hq, hqi, h⟩
+    · right; simp [h]
+  refine ⟨?_, ?_, ?_, ?_, ?_, ?_, h1.zeroed.append h2.zeroed⟩
+  · rw [h2.events, h1.events]; simp
+  · intro ev hev f hf
+    rcases List.mem_append.1 hev with h | h
+    · rcases h1.touch ev h f hf with h' | h'
+      · exact Or.inl h'
+      · right; simp [h']
+    · rcases h2.touch ev h f hf with h' | h'
+      · exact lift f h'
+      · right; simp [h']
+  · intro f i hne
+    by_cases h : s2.mem f i = s1.mem f i
+    · rcases h1.memdiff f i (by rw [← h]; exact hne) with h' | h'
+      · exact Or.inl h'
+      · right; simp [h']
+    · rcases h2.memdiff f i h with h' | h'
+      · exact lift f h'
+      · right; simp [h']
+  · intro q g hq hqi hg
+    rcases h2.tree q g hq hqi hg with h | h
+    · rcases h1.tree q g hq hqi h with h' | h'
+      · exact Or.inl h'
+      · right; simp [h']
+    · right; simp [h]
+  · intro ev hev
+    rcases List.mem_append.1 hev with h | h
+    · exact h1.nodealloc ev h
+    · exact h2.nodealloc ev h
+  · have := h1.count; have := h2.count; simp; omega
+
+theorem CreateLog.mono {p4 : Word} {s s' : St} {seg : List Ev} {n m : Nat}
+    (h : CreateLog p4 s s' seg n) (hnm : n ≤ m) : CreateLog p4 s s' seg m :=
+  { h with count := Nat.le_trans h.count hnm }
+
+/-- A step that does not change memory and only reads `tbl` / gets a refusal from the allocator. -/
+theorem CreateLog.of_memEq {p4 : Word} {s s' : St} {seg : List Ev} {tbl : Word}
+    (hm : s'.mem = s.mem) (he : s'.events = s.events ++ seg)
+    (hseg : ∀ ev ∈ seg, (∃ i, ev = .rd tbl i) ∨ ev = .alloc none)
+    (ht : IsTable s.mem p4 tbl) (hc : allocCount seg ≤ 1) : CreateLog p4 s s' seg 1 where
+  events := he
+  touch := by
+    intro ev hev f hf
+    rcases hseg ev hev with ⟨i, rfl⟩ | rfl
+    · simp [Ev.frame?] at hf; subst hf; exact Or.inl ht
+    · simp [Ev.frame?] at hf
+  memdiff := by intro f i h; rw [hm] at h; exact absurd rfl h
+  tree := by intro q g _ _ h; rw [hm] at h; exact Or.inl h
+  nodealloc := by
+    intro ev hev
+    rcases hseg ev hev with ⟨i, rfl⟩ | rfl <;> rfl
+  count := hc
+  zeroed := ZeroedAfterAlloc.of_noAlloc (by
+    intro f hf
+    rcases hseg _ hf with ⟨i, h⟩ | h <;> cases h)
+
+/-- **`create_next_table`, log view** (same hypotheses as `createNextTable_ok`). -/
+theorem createNextTable_log (k : Kind) (s : St) (p4 : Word) (r : List Nat) (tbl : Word) (i : Nat) (pflags : Word)
+    (hinv : Inv s.mem p4) (hr : tblAt s.mem p4 r = some tbl) (hrl : r.length ≤ 2) (hri : IdxOK r)
+    (hi : i < 512) (hpf : ParentFlagsOK pflags) (hal : AllocsOK s.mem p4 s.allocs) :
+    match createNextTable k s tbl i pflags with
+    | (.panic, _) => False
+    | (.ok _, s') => ∃ seg, CreateLog p4 s s' seg 1 := by
+  have htbl : IsTable s.mem p4 tbl := ⟨r, by omega, hri, hr⟩
+  unfold createNextTable
+  simp only [St.rd_fst]
+  by_cases hu : Pte.isUnused (s.mem tbl i) = true
+  · have hzero : s.mem tbl i = 0#64 := by simpa [Pte.isUnused] using hu
+    simp only [hu, if_true]
+    cases hall : s.allocs with
+    | nil =>
+      simp only [St.alloc, St.rd, hall]
+      refine ⟨[.rd tbl i, .alloc none], CreateLog.of_memEq rfl (by simp [St.events]) ?_ htbl (by simp [allocCount, List.filter, Ev.isAlloc])⟩
+      intro ev h; simp at h; rcases h with h | h
+      · exact Or.inl ⟨i, h⟩
+      · exact Or.inr h
+    | cons a rest =>
+      cases a with
+      | none =>
+        simp only [St.alloc, St.rd, hall]
+        refine ⟨[.rd tbl i, .alloc none], CreateLog.of_memEq rfl (by simp [St.events]) ?_ htbl (by simp [allocCount, List.filter, Ev.isAlloc])⟩
+        intro ev h; simp at h; rcases h with h | h
+        · exact Or.inl ⟨i, h⟩
+        · exact Or.inr h
+      | some f =>
+        rw [hall] at hal
+        obtain ⟨hfresh, hdist, hrest⟩ := hal
+        have hlf := linkFl_ok k pflags hpf
+        obtain ⟨b1, b2, b3, b4, b5⟩ := link_bits f (linkFl k pflags) hfresh.fits hlf
+        have hnt : nextTable (Pte.mk f (linkFl k pflags)) = .ok f := by
+          rw [nextTable_ok_iff]; exact (tableOf_some_iff _ _).2 ⟨b1, b2, b3.symm⟩
+        simp only [St.alloc, St.rd, hall]
+        have hfl : (if k.recursive = true then Pte.PRESENT ||| Pte.WRITABLE ||| pflags else pflags) = linkFl k pflags := rfl
+        simp only [hfl, b4, Bool.not_true, Bool.false_eq_true, if_false, hnt]
+        have T := tblAt_linked s.mem p4 hinv r tbl i f (linkFl k pflags) hr hrl hri hi hzero hfresh hlf
+        have htf : tbl ≠ f := fun h => hfresh.notTable r (by omega) hri (h ▸ hr)
+        refine ⟨[.rd tbl i, .alloc (some f), .wr tbl i (Pte.mk f (linkFl k pflags))] ++ zeroEvs f, ?_⟩
+        have hal : allocatedIn ([.rd tbl i, .alloc (some f), .wr tbl i (Pte.mk f (linkFl k pflags))] ++ zeroEvs f) = [f] := by
+          rw [allocatedIn_append, allocatedIn_zeroEvs]; rfl
+        have hmem : ∀ (s0 : St), s0.mem = s.mem →
+            ((St.wr s0 tbl i (Pte.mk f (linkFl k pflags))).zeroTable f).mem = linked s.mem tbl i f (linkFl k pflags) := by
+          intro s0 h0; rw [St.zeroTable_mem, St.wr_mem, h0]; rfl
+        refine ⟨?_, ?_, ?_, ?_, ?_, ?_, ZeroedAfterAlloc.fresh tbl i f _⟩
+        · rw [St.events_zeroTable, St.events_wr]; simp [St.events]
+        · intro ev hev g hg
+          rw [hal]
+          simp only [List.cons_append, List.nil_append, List.mem_cons] at hev
+          rcases hev with rfl | rfl | rfl | hev
+          · simp [Ev.frame?] at hg; subst hg; exact Or.inl htbl
+          · simp [Ev.frame?] at hg
+          · simp [Ev.frame?] at hg; subst hg; exact Or.inl htbl
+          · obtain ⟨j, _, rfl⟩ := mem_zeroEvs hev
+            simp [Ev.frame?] at hg; subst hg; right; simp
+        · intro g j hne
+          rw [hal]
+          rw [hmem ⟨s.mem, rest, _⟩ rfl] at hne
+          by_cases hgf : g = f
+          · right; simp [hgf]
+          · by_cases hw : g = tbl ∧ j = i
+            · left; rw [hw.1]; exact htbl
+            · exact absurd (linked_other s.mem tbl i f _ g j hgf hw) hne
+        · intro q g hq hqi hg
+          rw [hal]
+          rw [hmem ⟨s.mem, rest, _⟩ rfl, T q hq hqi] at hg
+          split at hg
+          · right; simp [(Option.some.inj hg).symm]
+          · split at hg
+            · cases hg
+            · exact Or.inl hg
+        · intro ev hev
+          simp only [List.cons_append, List.nil_append, List.mem_cons] at hev
+          rcases hev with rfl | rfl | rfl | hev
+          · rfl
+          · rfl
+          · rfl
+          · obtain ⟨j, _, rfl⟩ := mem_zeroEvs hev; rfl
+        · rw [allocCount_append, allocCount_zeroEvs]; simp [allocCount, List.filter, Ev.isAlloc]
+  · have hu' : Pte.isUnused (s.mem tbl i) = false := by simpa using hu
+    have hne : s.mem tbl i ≠ 0#64 := by
+      intro h0; rw [h0] at hu'; simp [Pte.isUnused] at hu'
+    have hP : Pte.present (s.mem tbl i) = true := hinv.pres r tbl i (by omega) hri hr hi hne
+    simp only [hu', Bool.false_eq_true, if_false]
+    have rdonly : CreateLog p4 s (s.rd tbl i).2 [.rd tbl i] 1 :=
+      CreateLog.of_memEq rfl (by simp) (by intro ev h; simp at h; exact Or.inl ⟨i, h⟩) htbl (by simp [allocCount, List.filter, Ev.isAlloc])
+    by_cases hh : Pte.huge (s.mem tbl i) = true
+    · simp only [hh, if_true]
+      exact ⟨_, rdonly⟩
+    · have hS : Pte.huge (s.mem tbl i) = false := by simpa using hh
+      simp only [hS, Bool.false_eq_true, if_false]
+      have hnt0 : nextTable (s.mem tbl i) = .ok (Pte.addr (s.mem tbl i)) := by
+        unfold nextTable; simp [hS, hP]
+      by_cases hc : (pflags != 0#64 && !Pte.contains (s.mem tbl i) pflags) = true
+      · simp only [hc, if_true]
+        obtain ⟨b1, b2, b3⟩ := or_flags_bits (s.mem tbl i) pflags hP hS hpf
+        have hnt : nextTable (Pte.setFlags (s.mem tbl i) (Pte.flags (s.mem tbl i) ||| pflags)) =
+            .ok (Pte.addr (s.mem tbl i)) := by
+          rw [nextTable_ok_iff]; exact (tableOf_some_iff _ _).2 ⟨b1, b2, by rw [b3]; rfl⟩
+        simp only [hnt]
+        obtain ⟨_, i2, _⟩ := set_table_entry s.mem p4 hinv r tbl i _ hr hrl hri hi hP hS b1 b2 b3
+        refine ⟨[.rd tbl i, .wr tbl i (Pte.setFlags (s.mem tbl i) (Pte.flags (s.mem tbl i) ||| pflags))], ?_⟩
+        refine ⟨by simp, ?_, ?_, ?_, ?_, by simp [allocCount, List.filter, Ev.isAlloc], ZeroedAfterAlloc.of_noAlloc (by intro f h; simp at h)⟩
+        · intro ev hev g hg
+          simp at hev
+          rcases hev with rfl | rfl <;> (simp [Ev.frame?] at hg; subst hg; exact Or.inl htbl)
+        · intro g j hne'
+          simp only [St.wr_mem, St.rd_mem] at hne'
+          by_cases hw : g = tbl ∧ j = i
+          · left; rw [hw.1]; exact htbl
+          · exact absurd (PMem.set_other s.mem tbl i _ g j hw) hne'
+        · intro q g hq hqi hg
+          simp only [St.wr_mem, St.rd_mem] at hg
+          rw [i2 q hq hqi] at hg
+          exact Or.inl hg
+        · intro ev hev
+          simp at hev
+          rcases hev with rfl | rfl <;> rfl
+      · simp only [hc, Bool.false_eq_true, if_false, hnt0]
+        exact ⟨_, rdonly⟩
+
+/-- **The descent of `map_to`, log view**: whatever happens (success, allocation failure at any
+point, huge parent), the log segment satisfies `CreateLog` with at most one allocator request per
+parent level. -/
+theorem createPath_log (k : Kind) (pflags : Word) (p4 : Word) (hpf : ParentFlagsOK pflags) :
+    ∀ (parents r : List Nat) (tbl : Word) (s : St),
+      Inv s.mem p4 → tblAt s.mem p4 r = some tbl → r.length + parents.length ≤ 3 → IdxOK (r ++ parents) →
+      AllocsOK s.mem p4 s.allocs →
+      match createPath k pflags s tbl parents with
+      | (.panic, _) => False
+      | (.ok _, s') => ∃ seg, CreateLog p4 s s' seg parents.length := by
+  intro parents
+  induction parents with
+  | nil =>
+    intro r tbl s _ _ _ _ _
+    simp only [createPath]
+    exact ⟨[], CreateLog.refl p4 s⟩
+  | cons i parents ih =>
+    intro r tbl s hinv hr hlen hidx hal
+    have hrl : r.length ≤ 2 := by simp at hlen; omega
+    have hri : IdxOK r := (IdxOK_append.1 hidx).1
+    have hi : i < 512 := (IdxOK_append.1 hidx).2 i (by simp)
+    have hstep := createNextTable_ok k s p4 r tbl i pflags hinv hr hrl hri hi hpf hal
+    have hlog := createNextTable_log k s p4 r tbl i pflags hinv hr hrl hri hi hpf hal
+    simp only [createPath]
+    cases hc : createNextTable k s tbl i pflags with
+    | mk res s1 =>
+      rw [hc] at hstep hlog
+      cases res with
+      | panic => exact hstep
+      | ok res' =>
+        obtain ⟨seg1, hl1⟩ := hlog
+        cases res' with
+        | error e =>
+          simp only
+          exact ⟨seg1, hl1.mono (by simp)⟩
+        | ok t1 =>
+          obtain ⟨hs1, ht1⟩ := hstep
+          simp only
+          have hrec := ih (r ++ [i]) t1 s1 hs1.inv ht1 (by simp at hlen ⊢; omega) (by simpa using hidx) hs1.allocs
+          cases hc2 : createPath k pflags s1 t1 parents with
+          | mk res2 s2 =>
+            rw [hc2] at hrec
+            cases res2 with
+            | panic => exact hrec
+            | ok res2' =>
+              obtain ⟨seg2, hl2⟩ := hrec
+              exact ⟨seg1 ++ seg2, (hl1.trans hl2).mono (by simp; omega)⟩
+
+/-! ### No allocation when the tables exist -/
+
+/-- `create_next_table` on a slot that already points to a table: no allocator request; the entry is
+at most rewritten with additional parent flags. -/
+theorem createNextTable_existing (k : Kind) (s : St) (tbl : Word) (i : Nat) (pflags t1 : Word)
+    (hpf : ParentFlagsOK pflags) (hto : tableOf (s.mem tbl i) = some t1) :
+    ∃ s', createNextTable k s tbl i pflags = (.ok (.ok t1), s') ∧
+      (s' = (s.rd tbl i).2 ∨
+       s' = (s.rd tbl i).2.wr tbl i (Pte.setFlags (s.mem tbl i) (Pte.flags (s.mem tbl i) ||| pflags))) := by
+  obtain ⟨hP, hS, ht1⟩ := (tableOf_some_iff _ _).1 hto
+  rw [← present_eq_bitP] at hP
+  rw [← huge_eq_bitPS] at hS
+  have hne : s.mem tbl i ≠ 0#64 := by
+    intro h0; rw [h0] at hP; simp [Pte.present, Pte.PRESENT] at hP
+  have hu : Pte.isUnused (s.mem tbl i) = false := by simp [Pte.isUnused, hne]
+  have hnt0 : nextTable (s.mem tbl i) = .ok t1 := (nextTable_ok_iff _ _).2 hto
+  unfold createNextTable
+  simp only [St.rd_fst, hu, Bool.false_eq_true, if_false, hS]
+  by_cases hc : (pflags != 0#64 && !Pte.contains (s.mem tbl i) pflags) = true
+  · simp only [hc, if_true]
+    obtain ⟨b1, b2, b3⟩ := or_flags_bits (s.mem tbl i) pflags hP hS hpf
+    have hnt : nextTable (Pte.setFlags (s.mem tbl i) (Pte.flags (s.mem tbl i) ||| pflags)) = .ok t1 := by
+      rw [nextTable_ok_iff]; exact (tableOf_some_iff _ _).2 ⟨b1, b2, by rw [b3]; exact ht1⟩
+    simp only [hnt]
+    exact ⟨_, rfl, Or.inr rfl⟩
+  · simp only [hc, Bool.false_eq_true, if_false, hnt0]
+    exact ⟨_, rfl, Or.inl rfl⟩
+
+/-- **No frame is requested when the needed tables already exist.** -/
+theorem createPath_exists (k : Kind) (pflags : Word) (p4 : Word) (hpf : ParentFlagsOK pflags) :
+    ∀ (parents r : List Nat) (tbl t : Word) (s : St),
+      Inv s.mem p4 → tblAt s.mem p4 r = some tbl → tblAt s.mem p4 (r ++ parents) = some t →
+      r.length + parents.length ≤ 3 → IdxOK (r ++ parents) →
+      ∃ seg, (createPath k pflags s tbl parents).2.events = s.events ++ seg ∧ allocCount seg = 0 ∧
+        (createPath k pflags s tbl parents).2.allocs = s.allocs ∧
+        (createPath k pflags s tbl parents).1 = .ok (.ok t) := by
+  intro parents
+  induction parents with
+  | nil =>
+    intro r tbl t s _ hr ht _ _
+    simp only [List.append_nil] at ht
+    rw [hr] at ht
+    exact ⟨[], by simp [createPath], by simp, rfl, by simp [createPath, Option.some.inj ht]⟩
+  | cons i parents ih =>
+    intro r tbl t s hinv hr ht hlen hidx
+    have hrl : r.length ≤ 2 := by simp at hlen; omega
+    have hri : IdxOK r := (IdxOK_append.1 hidx).1
+    have hi : i < 512 := (IdxOK_append.1 hidx).2 i (by simp)
+    -- the entry points to a table
+    have hsplit : tblAt s.mem p4 (r ++ i :: parents) = (tblAt s.mem tbl [i]).bind (fun t' => tblAt s.mem t' parents) := by
+      rw [show r ++ i :: parents = r ++ ([i] ++ parents) from by simp, tblAt_append, hr]
+      simp only [Option.bind_some]
+      exact tblAt_append s.mem tbl [i] parents
+    rw [hsplit] at ht
+    cases hto : tableOf (s.mem tbl i) with
+    | none => simp [tblAt, hto] at ht
+    | some t1 =>
+      have ht' : tblAt s.mem t1 parents = some t := by simpa [tblAt, hto] using ht
+      obtain ⟨hP, hS, ht1⟩ := (tableOf_some_iff _ _).1 hto
+      obtain ⟨s1, hc, hs1⟩ := createNextTable_existing k s tbl i pflags t1 hpf hto
+      have hr1 : tblAt s.mem p4 (r ++ [i]) = some t1 := by
+        rw [tblAt_append, hr]; simp [tblAt, hto]
+      have hfull : tblAt s.mem p4 ((r ++ [i]) ++ parents) = some t := by
+        rw [tblAt_append, hr1]; simpa using ht'
+      simp only [createPath, hc]
+      rcases hs1 with rfl | rfl
+      · -- entry left as it is
+        obtain ⟨seg, he, hcnt, hal, hres⟩ := ih (r ++ [i]) t1 t (s.rd tbl i).2 hinv hr1 hfull
+          (by simp at hlen ⊢; omega) (by simpa using hidx)
+        exact ⟨.rd tbl i :: seg, by rw [he]; simp, by simpa [allocCount, List.filter, Ev.isAlloc] using hcnt,
+          by simpa using hal, hres⟩
+      · -- parent flags added
+        obtain ⟨b1, b2, b3⟩ := or_flags_bits (s.mem tbl i) pflags (by rw [present_eq_bitP]; exact hP)
+          (by rw [huge_eq_bitPS]; exact hS) hpf
+        obtain ⟨i1, i2, _⟩ := set_table_entry s.mem p4 hinv r tbl i _ hr hrl hri hi hP hS b1 b2 b3
+        have hlen' : ((r ++ [i]) ++ parents).length ≤ 3 := by simp at hlen ⊢; omega
+        have hidx' : IdxOK ((r ++ [i]) ++ parents) := by simpa using hidx
+        have hr1' : tblAt (s.mem.set tbl i (Pte.setFlags (s.mem tbl i) (Pte.flags (s.mem tbl i) ||| pflags))) p4 (r ++ [i]) = some t1 := by
+          rw [i2 _ (by simp; omega) (IdxOK_append.2 ⟨hri, fun j hj => by simp at hj; rw [hj]; exact hi⟩)]; exact hr1
+        have hfull' : tblAt (s.mem.set tbl i (Pte.setFlags (s.mem tbl i) (Pte.flags (s.mem tbl i) ||| pflags))) p4 ((r ++ [i]) ++ parents) = some t := by
+          rw [i2 _ hlen' hidx']; exact hfull
+        obtain ⟨seg, he, hcnt, hal, hres⟩ := ih (r ++ [i]) t1 t
+          ((s.rd tbl i).2.wr tbl i (Pte.setFlags (s.mem tbl i) (Pte.flags (s.mem tbl i) ||| pflags)))
+          (by simpa using i1) (by simpa using hr1') (by simpa using hfull')
+          (by simp at hlen ⊢; omega) (by simpa using hidx)
+        refine ⟨.rd tbl i :: .wr tbl i (Pte.setFlags (s.mem tbl i) (Pte.flags (s.mem tbl i) ||| pflags)) :: seg, by rw [he]; simp, ?_, by simpa using hal, hres⟩
+        simpa [allocCount, List.filter, Ev.isAlloc] using hcnt
+
+/-! ### Operations that never allocate: unmap, update_flags, set_flags_pN_entry, translate_page -/
+
+/-- The recursive mapper's descent (`is_unused` first, no `PRESENT` test) also only reads tables of
+the hierarchy — provided every non-zero entry of a table is present (part of the state invariant). -/
+theorem descendU_events (p4 : Word) : ∀ (path r : List Nat) (tbl : Word) (s : St),
+    AllPresent s.mem p4 →
+    tblAt s.mem p4 r = some tbl → r.length + path.length ≤ 3 → IdxOK (r ++ path) →
+    ∃ seg, (descendU s tbl path).2.events = s.events ++ seg ∧
+      (descendU s tbl path).2.mem = s.mem ∧ (descendU s tbl path).2.allocs = s.allocs ∧
+      (∀ t, (descendU s tbl path).1 = .ok t → tblAt s.mem p4 (r ++ path) = some t) ∧
+      ∀ ev ∈ seg, ∃ f i, ev = .rd f i ∧ IsTable s.mem p4 f := by
+  intro path
+  induction path with
+  | nil =>
+    intro r tbl s _ hr _ _
+    refine ⟨[], by simp [descendU], rfl, rfl, ?_, by intro ev h; cases h⟩
+    intro t ht; simp [descendU] at ht; subst ht; simpa using hr
+  | cons i rest ih =>
+    intro r tbl s hap hr hlen hidx
+    have hrl : r.length ≤ 3 := by simp at hlen; omega
+    have hri : IdxOK r := (IdxOK_append.1 hidx).1
+    have hi : i < 512 := (IdxOK_append.1 hidx).2 i (by simp)
+    have htbl : IsTable s.mem p4 tbl := ⟨r, hrl, hri, hr⟩
+    simp only [descendU, St.rd_fst]
+    cases hnt : nextTableU (s.mem tbl i) with
+    | error e =>
+      refine ⟨[.rd tbl i], ?_, ?_, ?_, ?_, ?_⟩
+      · simp
+      · rfl
+      · rfl
+      · intro t ht; cases ht
+      · intro ev h; simp at h; exact ⟨tbl, i, h, htbl⟩
+    | ok t =>
+      have hto : tableOf (s.mem tbl i) = some t := by
+        unfold nextTableU at hnt
+        split at hnt
+        · cases hnt
+        · rename_i hu
+          split at hnt
+          · cases hnt
+          · rename_i hh
+            have hne : s.mem tbl i ≠ 0#64 := by
+              intro h0; rw [h0] at hu; simp [Pte.isUnused] at hu
+            have hP := hap r tbl i hrl hri hr hi hne
+            cases hnt
+            unfold tableOf
+            simp [hP, hh]
+      have ht : tblAt s.mem p4 (r ++ [i]) = some t := by
+        rw [tblAt_append, hr]; simp [tblAt, hto]
+      obtain ⟨seg, hseg, hm, ha, hok, hall⟩ := ih (r ++ [i]) t (s.rd tbl i).2 hap (by simpa using ht)
+        (by simp at hlen ⊢; omega) (by simpa using hidx)
+      refine ⟨.rd tbl i :: seg, ?_, ?_, ?_, ?_, ?_⟩
+      · simp only []; rw [hseg]; simp
+      · simpa using hm
+      · simpa using ha
+      · intro t' ht'; simpa using hok t' ht'
+      · intro ev h
+        rcases List.mem_cons.1 h with h | h
+        · exact ⟨tbl, i, h, htbl⟩
+        · simpa using hall ev h
+
+/-- `descend`, packaged like `descendU_events`. -/
+theorem descend_events' (p4 : Word) (path r : List Nat) (tbl : Word) (s : St)
+    (hr : tblAt s.mem p4 r = some tbl) (hlen : r.length + path.length ≤ 3) (hidx : IdxOK (r ++ path)) :
+    ∃ seg, (descend s tbl path).2.events = s.events ++ seg ∧
+      (descend s tbl path).2.mem = s.mem ∧ (descend s tbl path).2.allocs = s.allocs ∧
+      (∀ t, (descend s tbl path).1 = .ok t → tblAt s.mem p4 (r ++ path) = some t) ∧
+      ∀ ev ∈ seg, ∃ f i, ev = .rd f i ∧ IsTable s.mem p4 f := by
+  obtain ⟨seg, h1, h2⟩ := descend_events p4 path r tbl s hr hlen hidx
+  refine ⟨seg, h1, descend_mem s tbl path, descend_allocs s tbl path, ?_, h2⟩
+  intro t ht
+  have := (descend_ok_iff s tbl path t).1 ht
+  rw [tblAt_append, hr]; simpa using this
+
+/-- When is the descent of mapper kind `k` covered: the recursive kind needs "non-zero ⇒ present". -/
+def KindOK (k : Kind) (m : PMem) (p4 : Word) : Prop := k.recursive = true → AllPresent m p4
+
+theorem descendK_events (k : Kind) (p4 : Word) (path : List Nat) (s : St) (hk : KindOK k s.mem p4)
+    (hlen : path.length ≤ 3) (hidx : IdxOK path) :
+    ∃ seg, (descendK k s p4 path).2.events = s.events ++ seg ∧
+      (descendK k s p4 path).2.mem = s.mem ∧ (descendK k s p4 path).2.allocs = s.allocs ∧
+      (∀ t, (descendK k s p4 path).1 = .ok t → tblAt s.mem p4 path = some t) ∧
+      ∀ ev ∈ seg, ∃ f i, ev = .rd f i ∧ IsTable s.mem p4 f := by
+  unfold descendK
+  by_cases hrec : k.recursive = true
+  · simp only [hrec, if_true]
+    simpa using descendU_events p4 path [] p4 s (hk hrec) rfl (by simpa using hlen) (by simpa using hidx)
+  · simp only [hrec, if_false]
+    simpa using descend_events' p4 path [] p4 s rfl (by simpa using hlen) (by simpa using hidx)
+
+/-- Log guarantee of an operation that never allocates or frees: every event is a read or a write
+of a page table of the hierarchy, memory differs only inside such tables, the allocator is not
+consulted. -/
+structure TableOnly (p4 : Word) (s s' : St) (seg : List Ev) : Prop where
+  events : s'.events = s.events ++ seg
+  touch : ∀ ev ∈ seg, ∃ f, IsTable s.mem p4 f ∧ ((∃ i, ev = .rd f i) ∨ (∃ i v, ev = .wr f i v))
+  memdiff : ∀ f i, s'.mem f i ≠ s.mem f i → IsTable s.mem p4 f
+  allocs : s'.allocs = s.allocs
+
+theorem TableOnly.noAlloc {p4 : Word} {s s' : St} {seg : List Ev} (h : TableOnly p4 s s' seg) :
+    allocCount seg = 0 ∧ ∀ ev ∈ seg, ev.isDealloc = false := by
+  constructor
+  · unfold allocCount
+    rw [List.length_eq_zero_iff, List.filter_eq_nil_iff]
+    intro ev hev
+    obtain ⟨f, _, ⟨i, rfl⟩ | ⟨i, v, rfl⟩⟩ := h.touch ev hev <;> simp [Ev.isAlloc]
+  · intro ev hev
+    obtain ⟨f, _, ⟨i, rfl⟩ | ⟨i, v, rfl⟩⟩ := h.touch ev hev <;> rfl
+
+/-- descent, then a read of slot `li` of the reached table -/
+theorem TableOnly.rd_end {p4 : Word} {s s1 : St} {seg : List Ev} {t : Word} (li : Nat)
+    (he : s1.events = s.events ++ seg) (hm : s1.mem = s.mem) (ha : s1.allocs = s.allocs)
+    (hseg : ∀ ev ∈ seg, ∃ f i, ev = .rd f i ∧ IsTable s.mem p4 f) (ht : IsTable s.mem p4 t) :
+    TableOnly p4 s (s1.rd t li).2 (seg ++ [.rd t li]) where
+  events := by simp [he]
+  touch := by
+    intro ev hev
+    rcases List.mem_append.1 hev with h | h
+    · obtain ⟨f, i, rfl, hf⟩ := hseg ev h; exact ⟨f, hf, Or.inl ⟨i, rfl⟩⟩
+    · simp at h; exact ⟨t, ht, Or.inl ⟨li, h⟩⟩
+  memdiff := by intro f i h; simp [hm] at h
+  allocs := by simp [ha]
+
+/-- descent, a read of slot `li` of the reached table, then a write to the same slot -/
+theorem TableOnly.wr_end {p4 : Word} {s s1 : St} {seg : List Ev} {t : Word} (li : Nat) (v : Word)
+    (he : s1.events = s.events ++ seg) (hm : s1.mem = s.mem) (ha : s1.allocs = s.allocs)
+    (hseg : ∀ ev ∈ seg, ∃ f i, ev = .rd f i ∧ IsTable s.mem p4 f) (ht : IsTable s.mem p4 t) :
+    TableOnly p4 s ((s1.rd t li).2.wr t li v) (seg ++ [.rd t li, .wr t li v]) where
+  events := by simp [he]
+  touch := by
+    intro ev hev
+    rcases List.mem_append.1 hev with h | h
+    · obtain ⟨f, i, rfl, hf⟩ := hseg ev h; exact ⟨f, hf, Or.inl ⟨i, rfl⟩⟩
+    · simp at h
+      rcases h with h | h
+      · exact ⟨t, ht, Or.inl ⟨li, h⟩⟩
+      · exact ⟨t, ht, Or.inr ⟨li, v, h⟩⟩
+  memdiff := by
+    intro f i h
+    simp only [St.wr_mem, St.rd_mem, hm] at h
+    by_cases hw : f = t ∧ i = li
+    · rw [hw.1]; exact ht
+    · exact absurd (PMem.set_other s.mem t li v f i hw) h
+  allocs := by simp [ha]
+
+/-- an error during the descent -/
+theorem TableOnly.desc_end {p4 : Word} {s s1 : St} {seg : List Ev}
+    (he : s1.events = s.events ++ seg) (hm : s1.mem = s.mem) (ha : s1.allocs = s.allocs)
+    (hseg : ∀ ev ∈ seg, ∃ f i, ev = .rd f i ∧ IsTable s.mem p4 f) :
+    TableOnly p4 s s1 seg where
+  events := he
+  touch := by
+    intro ev h
+    obtain ⟨f, i, rfl, hf⟩ := hseg ev h; exact ⟨f, hf, Or.inl ⟨i, rfl⟩⟩
+  memdiff := by intro f i h; simp [hm] at h
+  allocs := ha
+
 end X86
